@@ -131,9 +131,8 @@ func evalStream(c *scase) (string, int) {
 	if !errors.Is(lastc.Err, want) {
 		return fmt.Sprintf("terminal error %v is not the transport's own error %v", lastc.Err, want), n
 	}
-	if c.Fault == "" && lastc.To != limit {
-		return fmt.Sprintf("terminal error reported after consuming %d of %d bytes", lastc.To, limit), n
-	}
+	// (whether the bytes of a frame cut short by the end of the stream count as consumed when
+	// the transport's error is reported is not part of the statement: not checked)
 	// clean streams: every valid frame comes out, in order
 	if c.Clean && c.Fault == "" {
 		var wantFrames [][2]int
